@@ -172,6 +172,9 @@ func runChildren(c *Ctx, specs []childSpec, parallel int) []childOutcome {
 			defer wg.Done()
 			defer func() { <-sem }()
 			outs[i] = runChild(c, specs[i])
+			if blobReportsSpin(outs[i].Blob) {
+				childAbortOnce.Do(func() { close(childAbort) })
+			}
 		}(i)
 	}
 	wg.Wait()
